@@ -304,11 +304,15 @@ func scenarios(cfg *mc.Config, emit func(mc.Scenario)) {
 			if i == K+1 {
 				ks = bytes.Repeat([]byte{0xff}, 32)
 			}
+			// (the reference works on its own copy of the seed: the same KEY_SEED
+			// buffer is handed to Kdf again and again, as a caller deriving
+			// several outputs from one handshake would)
+			orig := append([]byte{}, ks...)
 			var prev []byte
 			for _, n := range lens {
 				got := ntor.Kdf(ks, n)
 				got2 := ntor.Kdf(ks, n)
-				want := ref.Kdf(ks, n)
+				want := ref.Kdf(orig, n)
 				if len(got) != n || !bytes.Equal(got, want) {
 					fail(c, "kdf", "kdf/reference", "Kdf(seed %d, %d) differs from HKDF-SHA256(salt t_key, info m_expand)", i, n)
 					return
